@@ -222,6 +222,13 @@ func TestJobConfigs(t *testing.T) {
 			mu.Lock()
 			failSink = failing
 			mu.Unlock()
+			// a run that is "still running" is only a hang if no legitimate run takes that long, on a busy machine too:
+			// runs take milliseconds, except against a failing HTTP endpoint, which the sink retries for seconds per
+			// request (and a log handler asks again entity by entity)
+			hangAfter := 2 * time.Minute
+			if failing && c.Sink == "HttpDatasetSink" {
+				hangAfter = 10 * time.Minute
+			}
 			cfg := buildJobConfig(c, fmt.Sprintf("job-%s-%v", tag, failing), src, src2, snk, stub.URL)
 			if failing && c.Sink == "DatasetSink" {
 				cfg.Sink["Name"] = "missing-" + tag // a sink dataset that does not exist
@@ -266,12 +273,12 @@ func TestJobConfigs(t *testing.T) {
 							} else if !hj.Idle() {
 								r.Divs = append(r.Divs, Divergence{Kind: "job-slot", Adapter: "jobs", Query: q2, Expected: "run slot released", Actual: "still occupied"})
 							}
-						case <-time.After(20 * time.Second):
-							r.Divs = append(r.Divs, Divergence{Kind: "job-hang", Adapter: "jobs", Query: q2, Expected: "the run ends", Actual: "still running after 20 s"})
+						case <-time.After(hangAfter):
+							r.Divs = append(r.Divs, Divergence{Kind: "job-hang", Adapter: "jobs", Query: q2, Expected: "the run ends", Actual: fmt.Sprintf("still running after %v", hangAfter)})
 						}
 					}
-				case <-time.After(20 * time.Second):
-					r.Divs = append(r.Divs, Divergence{Kind: "job-hang", Adapter: "jobs", Query: q, Expected: "the run ends", Actual: "still running after 20 s"})
+				case <-time.After(hangAfter):
+					r.Divs = append(r.Divs, Divergence{Kind: "job-hang", Adapter: "jobs", Query: q, Expected: "the run ends", Actual: fmt.Sprintf("still running after %v", hangAfter)})
 				}
 			}
 		}
@@ -406,7 +413,7 @@ func TestJobStorm(t *testing.T) {
 	wg.Wait()
 	// quiescence: nothing running, retry timers drained
 	quiet := 0
-	for i := 0; i < 400 && quiet < 6; i++ {
+	for i := 0; i < 2400 && quiet < 6; i++ { // up to 60 s: a busy machine is not a hang
 		time.Sleep(25 * time.Millisecond)
 		if r, _, _ := sched.VerifSlots(); r == 0 {
 			quiet++
